@@ -362,7 +362,7 @@ def r5_reparse_sites(ctx, rid: str = "C05.R5", placeholders: bool = False) -> No
             for p in prog.ancestors(n):
                 if isinstance(p, ast.stmt):
                     break
-                if isinstance(p, ast.Call) and call_name(p).split(".")[-1] in ("SigmaString", "SigmaRegularExpression", "SigmaCasedString") and child in p.args:
+                if isinstance(p, ast.Call) and call_name(p).split(".")[-1] in ("SigmaString", "SigmaRegularExpression", "SigmaCasedString", "__class__") and child in p.args:
                     flows = True
                     break
                 if isinstance(p, ast.Call) and child is p.func:
@@ -380,7 +380,7 @@ def r5_reparse_sites(ctx, rid: str = "C05.R5", placeholders: bool = False) -> No
                             seen.add(a.targets[0].id)
                             changed = True
                 for c in walk_no_nested(f.node):
-                    if isinstance(c, ast.Call) and call_name(c).split(".")[-1] in ("SigmaString", "SigmaRegularExpression") and c.args and any(isinstance(x, ast.Name) and x.id in seen for x in ast.walk(c.args[0])):
+                    if isinstance(c, ast.Call) and call_name(c).split(".")[-1] in ("SigmaString", "SigmaRegularExpression", "SigmaCasedString", "__class__") and c.args and any(isinstance(x, ast.Name) and x.id in seen for x in ast.walk(c.args[0])):
                         flows = True
             if not flows:
                 continue
